@@ -10,7 +10,8 @@
 //   0x10000+n, 32-bit extremes), non-minimal / over-long length forms, real growth of a value past 65535
 //   bytes (16-bit psSize_t truncation with the bytes actually present; needs max_len > 64 KiB),
 //   duplicate / delete / swap / deep-nest subtrees, INTEGER edge values, byte-level mutation confined to
-//   one primitive value (keeps the surrounding structure valid), and subtree splicing between two inputs
+//   one primitive value (keeps the surrounding structure valid), consistent tail truncation and header cuts (the
+//   input ends inside a tag/length header, enclosing lengths re-encoded), and subtree splicing between two inputs
 //   (LLVMFuzzerCustomCrossOver).  About a third of the calls fall through to libFuzzer's generic mutator.
 //
 // Everything is a pure function of (input, Seed).  Enabled only in libFuzzer builds.
@@ -169,6 +170,46 @@ inline bool mutate_tree(std::vector<Node> &roots, Rng &r, size_t hardMax, const 
     size_t total = 0; { Bytes all; ser_list(roots, all); total = all.size(); }
     size_t maxOut = hardMax < total + total / 2 + 1024 ? hardMax : total + total / 2 + 1024;
     unsigned op = (unsigned) r.below(donor ? 16 : 15);
+    if (op == 14 && r.below(3) == 0) {
+        // header cut: the input ends inside (or right after) the tag/length header of the chosen TLV.  Everything behind
+        // the TLV is removed at every nesting level and the enclosing lengths are re-encoded to what is really present
+        // (or, one time in three, the innermost enclosing TLV keeps the length it claimed), so that a parser which looks
+        // at a tag or length octet without checking how many are left reads past the end of the buffer.
+        std::vector<std::pair<std::vector<Node> *, size_t>> path;
+        struct F { static bool find(std::vector<Node> &v, const Node *want, std::vector<std::pair<std::vector<Node> *, size_t>> &p) {
+            for (size_t i = 0; i < v.size(); i++) {
+                p.push_back(std::make_pair(&v, i));
+                if (&v[i] == want) return true;
+                if (v[i].parsedKids && find(v[i].kids, want, p)) return true;
+                p.pop_back();
+            }
+            return false; } };
+        if (nd.raw || !F::find(roots, &nd, path)) return false;
+        Bytes body; if (nd.parsedKids) { if (nd.bitPad != 0xff) body.push_back(nd.bitPad); ser_list(nd.kids, body); } else body = nd.content;
+        Bytes hdr; hdr.push_back(nd.tag);
+        switch (r.below(4)) {
+        case 0: case 1: { // a prefix of the real header (1 .. all of its octets; all = the TLV claims content that is absent)
+            Bytes full; full.push_back(nd.tag); enc_len(full, body.size(), nd.lenMode == 1 ? nd.lenBytes : 0);
+            size_t k = 1 + r.below(full.size());
+            hdr.assign(full.begin(), full.begin() + k);
+            break; }
+        default: { // a long-form length (0x81..0x84) cut one octet short, first length octet non-zero
+            size_t k = 1 + r.below(4);
+            hdr.push_back((uint8_t) (0x80 | k));
+            for (size_t j = 0; j + 1 < k; j++) hdr.push_back((uint8_t) (j == 0 ? 1 + r.below(255) : r.next()));
+            break; }
+        }
+        bool parentKeeps = path.size() > 1 && r.below(3) == 0;
+        if (parentKeeps) {
+            Node &par = (*path[path.size() - 2].first)[path[path.size() - 2].second];
+            Bytes pb; if (par.bitPad != 0xff) pb.push_back(par.bitPad); ser_list(par.kids, pb);
+            par.lenMode = 3; par.lenOverride = (uint32_t) pb.size(); par.lenBytes = 0;
+        }
+        for (auto &pe : path) pe.first->resize(pe.second + 1);     // deepest vectors are resized last; nd stays valid until replaced
+        Node blob; blob.raw = true; blob.content.swap(hdr);
+        (*path.back().first)[path.back().second] = std::move(blob);
+        return true;
+    }
     if (op == 14) { // consistent tail truncation: cut c bytes off the END of the encoding (of the whole input, or of the
                     // chosen subtree) and re-encode every ancestor with the length that is really present, so the
                     // last TLV(s) claim more than their enclosing SEQUENCE / the buffer holds.
